@@ -273,7 +273,9 @@ fn run_inner(c: &[u64]) -> Vec<i128> {
             let lay_ok = u16::from_le_bytes([pbytes[0], pbytes[1]]) == 0xabcd && u64::from_le_bytes(pbytes[2..10].try_into().unwrap()) == 0x1122_3344_5566;
             let mut v = vec![0, o1 as i128, (o1 + 24) as i128, o3 as i128, (o3 + 56) as i128, (o6 - 2) as i128, o6 as i128, core::mem::size_of::<TaskStateSegment>() as i128, iomap as i128,
                 (core::ptr::addr_of!(p.limit) as usize - pb) as i128, (core::ptr::addr_of!(p.base) as usize - pb) as i128, core::mem::size_of::<DescriptorTablePointer>() as i128];
-            if !zero_except_iomap || !lay_ok {
+            // every way of constructing a TSS must give the same bytes (Default is `new`)
+            let dbytes: [u8; 104] = unsafe { core::mem::transmute_copy(&TaskStateSegment::default()) };
+            if !zero_except_iomap || !lay_ok || dbytes != bytes {
                 v.push(-77);
             }
             v
